@@ -38,6 +38,7 @@ EXPLANATION += (' R-C20-8: an exporter attribute that a method sets under a data
 EXPLANATION += (' R-C20-9: a list that collects one array per element (groupby group) is not packed into a rectangular numpy array (mixed element types make it ragged).')
 EXPLANATION += (" R-C20-10: a string attribute that the exporter creates from a Python bytes/str value (stored as a variable-length string, returned by h5py as str) is not decoded unconditionally by the importer. R-C20-2 requires the roll-back in every handler of an entity-creating block; R-C20-9 also compares the order classes of a flat array and of the sizes it is split by.")
 EXPLANATION += (" R-C20-11: the exporter reduces the repeated rows of the element-nodal frame to one row per node by selection (groupby().first() and the like), never by an arithmetic aggregation (mean of k equal floats is not the float; integer columns become floats). R-C20-12: the importer computes the membership of mesh ids in a stored set without assume_unique=True (the id levels repeat every id). Both have a built-in example that must match on every run.")
+EXPLANATION += (" R-C20-13: imported variables are attached to the mesh by a join on the index labels; giving a frame another frame's index by position (set_axis / set_index / .index = other.index) is a violation (built-in example). R-C20-3 also rejects a shortcut in the range-checking function whose condition does not establish a signed type of at most 32 bits.")
 ASSUMPTIONS = [
     "h5py semantics: group[name] addresses a child, create_group/create_dataset create it, attrs is a key/value store",
     "string formatting with %s inserts exactly one path component",
@@ -435,6 +436,7 @@ def run(ctx):
     ctx.attempt(lambda c: _check_ragged(c, prog, exp_ci))
     ctx.attempt(lambda c: _check_selection_only(c, prog, exp_ci))
     ctx.attempt(lambda c: _check_membership(c, prog, imp_ci))
+    ctx.attempt(lambda c: _check_label_joins(c, prog, imp_ci))
 
     # ---------------------------------------------------------------- R-C20-4 read only
     ctx.rule("R-C20-4", floor=2, what="importer opens the file read-only and reaches no write call")
@@ -559,6 +561,63 @@ def _check_membership(ctx, prog, imp_ci):
     if n < 5:
         raise AnalysisError("importer methods not found")
     ctx.holds(imp_ci.key, None, "%d importer methods: no membership test under assume_unique=True" % n)
+
+
+def positional_relabellings(fn_node):
+    """a frame gets the index of ANOTHER frame by position:  a.set_axis(b.index) / a.set_index(b.index) / a.index = b.index /
+    pd.DataFrame(a.values, index=b.index) - row i of a is declared to be row i of b"""
+    out = []
+
+    def root(e):
+        while isinstance(e, (ast.Attribute, ast.Subscript, ast.Call)):
+            e = e.func.value if isinstance(e, ast.Call) and isinstance(e.func, ast.Attribute) else \
+                (e.value if not isinstance(e, ast.Call) else None)
+            if e is None:
+                return None
+        return norm_text(e) if e is not None else None
+
+    def index_of(e):
+        """the frame whose .index the expression is, if any"""
+        if isinstance(e, ast.Attribute) and e.attr == "index":
+            return norm_text(e.value)
+        return None
+    for n in ast.walk(fn_node):
+        if isinstance(n, ast.Call) and isinstance(n.func, ast.Attribute) and n.func.attr in ("set_axis", "set_index") and n.args:
+            other = index_of(n.args[0])
+            if other is not None and other != norm_text(n.func.value):
+                out.append((n, norm_text(n.func.value), other))
+        elif isinstance(n, ast.Assign) and len(n.targets) == 1 and isinstance(n.targets[0], ast.Attribute) and \
+                n.targets[0].attr == "index":
+            other = index_of(n.value)
+            if other is not None and other != norm_text(n.targets[0].value):
+                out.append((n, norm_text(n.targets[0].value), other))
+    return out
+
+
+def _check_label_joins(ctx, prog, imp_ci):
+    """R-C20-13: what the importer reads for a variable is attached to the mesh by a JOIN ON THE INDEX LABELS.  Geometry is written
+    by ascending element id, a variable in the row order of the frame it was exported from, a variable may cover only part of
+    the elements, and a filtered mesh may happen to have as many rows as a variable: equal length says nothing about equal
+    order.  Giving one frame the index of another by position is a violation."""
+    ctx.rule("R-C20-13", floor=1, what="imported variables are attached to the mesh by label (join), never by giving them the mesh index positionally")
+    ex = ast.parse("def f(self, v):\n    a = v.set_axis(self._mesh.index, axis=0)\n    b = self._mesh.join(v)\n"
+                   "    c = v.set_index('element_id')\n    return a, b, c\n").body[0]
+    if len(positional_relabellings(ex)) != 1:
+        raise AnalysisError("R-C20-13 built-in example not matched")
+    n = 0
+    m = 0
+    for name, fs in sorted(imp_ci.methods.items()):
+        f = fs[-1]
+        n += 1
+        for node, a, b in positional_relabellings(f.node):
+            m += 1
+            ctx.violated(f, node, "%s: %s gives %s the index of %s by position: row i is declared to belong to the i-th row of the "
+                         "mesh, whatever element / node it was stored for" % (name, norm_text(node)[:70], a, b),
+                         text="positional relabelling in " + name)
+    if n < 5:
+        raise AnalysisError("importer methods not found")
+    if not m:
+        ctx.holds(imp_ci.key, None, "%d importer methods: no frame is given another frame's index by position" % n)
 
 
 def _check_parallel_order(ctx, prog, exp_ci):
@@ -1487,6 +1546,11 @@ def _check_narrowing(ctx, prog, W, exp_ci):
         what = "/%s%s" % ("/".join(r["path"]), "" if fields == [None] else " fields %s" % fields)
         if guarded:
             ctx.holds(fi, call, "identifier dataset %s is range-checked before the 32-bit store" % what)
+        elif _shortcut_reason(prog, fi, call, data):
+            g_, st_, cond_ = _shortcut_reason(prog, fi, call, data)
+            ctx.violated(g_, st_, "%s returns the identifiers without the range check when %s: that does not establish a signed type "
+                         "of at most 32 bits (uint32 ids above 2**31-1 pass), so %s can store altered ids" %
+                         (g_.name, cond_ or "a path skips it", what), text="range check skipped in %s" % g_.name)
         else:
             ctx.violated(fi, call, "identifiers are stored in %s as 32-bit integers without a range check: ids beyond "
                          "2**31-1 are silently altered" % what,
@@ -1530,6 +1594,26 @@ def _range_guarded(prog, fi, call, data):
     return False
 
 
+def _shortcut_reason(prog, fi, call, data):
+    """(guard function, return statement, condition) if the data goes through a range check that has an unsound shortcut"""
+    if data is None:
+        return None
+    cands = list(calls_in(data))
+    names = names_in(data)
+    for s in walk_function(fi.node):
+        if isinstance(s, ast.Assign) and any(isinstance(t, ast.Name) and t.id in names for t in s.targets):
+            cands += calls_in(s.value)
+    for c in cands:
+        for k in prog.resolve_call(fi, c):
+            callee = prog.functions.get(k)
+            if callee is not None and any(isinstance(n, ast.Call) and call_name(n) in ("np.iinfo", "numpy.iinfo")
+                                          for n in walk_function(callee.node)):
+                sc = _unsound_shortcuts(callee)
+                if sc:
+                    return callee, sc[0][0], sc[0][1]
+    return None
+
+
 def _is_range_check(fi):
     txt_limits = False
     raises = False
@@ -1543,7 +1627,32 @@ def _is_range_check(fi):
             txt_limits = True
         if isinstance(n, ast.Raise):
             raises = True
-    return txt_limits and raises
+    return txt_limits and raises and not _unsound_shortcuts(fi)
+
+
+def _unsound_shortcuts(fi):
+    """returns of a range-checking function that are reached without passing the comparison with the limits, under a condition
+    that does not establish a SIGNED type of at most 32 bits (an unsigned 32-bit id above 2**31-1 does not fit)"""
+    from ..cfg import CFG
+    cfg = CFG(fi.node)
+    checks = set()
+    for st in walk_function(fi.node):
+        if isinstance(st, ast.If) and any(isinstance(x, ast.Raise) for b in st.body for x in ast.walk(b)) and \
+                any(isinstance(x, ast.Compare) for x in ast.walk(st.test)):
+            checks.add(cfg.node(st))
+    out = []
+    for st in walk_function(fi.node):
+        if isinstance(st, ast.Return):
+            n = cfg.node(st)
+            if checks and cfg.must_pass(n, checks):
+                continue
+            guard = getattr(st, "_parent", None)
+            cond = norm_text(guard.test) if isinstance(guard, ast.If) else ""
+            signed_only = ("signedinteger" in cond or "kind == 'i'" in cond or "== np.int32" in cond or "== np.int16" in cond) and \
+                "'iu'" not in cond and "'ui'" not in cond and "unsignedinteger" not in cond and "np.integer" not in cond
+            if not signed_only:
+                out.append((st, cond))
+    return out
 
 
 # =========================================================================== variants
